@@ -162,3 +162,5 @@ func zzH_C11_driver() {
 		zzAssert(same, "every path handed to the operating system lies inside the FTP root (native: nothing outside the root was created, removed or renamed)")
 	}
 }
+
+func filesystemNew() (*filesystem.Htfs, error) { return filesystem.New("/srv", "ftp", "root") }
